@@ -8,6 +8,12 @@
 //!   (3 13 ty MX k s)     mscalar
 //!   (3 16 ty MX)         mneg
 //!
+//!   (3 17 ty MX MY)      PartialEq: Matrix == Matrix, Matrix == MatrixView, MatrixView == Matrix,
+//!                        MatrixView == MatrixView (and !=), and the tensor API on the same data
+//!   (3 40 ty op form args..)  exactly ONE operand form of operator `op` (1 2 5 3 11 12 15 13 16 17),
+//!                        numbered as in coq/theories/Model/ArithForms.v; nothing is cross-checked
+//!                        inside the harness, the model evaluates the transcription of that impl
+//!
 //! ty: 0 Rat, 1 Fp, 2 Wrapping<i64>.  Operand terms: see coq/theories/Run/RunC03.v.
 //! Every operand is used as a container (the tensor / matrix holding the view's elements in view
 //! order) and as a view (a TensorView / MatrixView over the chain of adaptors the term names);
@@ -96,13 +102,41 @@ where
     T: Numeric + Enc + PartialEq + 'static,
     for<'a> &'a T: NumericRef<T>,
 {
+    if op == 40 {
+        // (3 40 ty op form args..): one operand form only
+        if args.len() < 3 {
+            return bad_case();
+        }
+        let (Some(op2), Some(form)) = (args[0].i64(), args[1].usize()) else { return bad_case() };
+        let limit = match op2 {
+            1 | 2 | 5 | 11 | 12 | 15 => 16,
+            3 | 13 => 8,
+            16 | 17 => 4,
+            _ => return bad_case(),
+        };
+        if form >= limit {
+            return bad_case();
+        }
+        return run_op::<T>(op2, &args[2..], Some(form));
+    }
+    run_op::<T>(op, args, None)
+}
+
+fn run_op<T>(op: i64, args: &[Sx], only: Option<usize>) -> Sx
+where
+    T: Numeric + Enc + PartialEq + 'static,
+    for<'a> &'a T: NumericRef<T>,
+{
+    if only.is_some() && matches!(op, 4 | 6 | 7 | 8) {
+        return bad_case();
+    }
     match op {
         1 | 2 | 7 | 8 if args.len() == 2 => {
             let Some(d) = operand_dims(&args[0]) else { return bad_case() };
             if operand_dims(&args[1]) != Some(d) {
                 return bad_case();
             }
-            with_d3!(d, t_binary_case::<T>(op, &args[0], &args[1]))
+            with_d3!(d, t_binary_case::<T>(op, &args[0], &args[1], only))
         }
         3 if args.len() == 3 => {
             let Some(d) = operand_dims(&args[0]) else { return bad_case() };
@@ -110,23 +144,24 @@ where
             if !(0..=3).contains(&k) {
                 return bad_case();
             }
-            with_d3!(d, t_scalar_case::<T>(&args[0], k, &s))
+            with_d3!(d, t_scalar_case::<T>(&args[0], k, &s, only))
         }
         4 if args.len() == 2 => t_dot_case::<T>(&args[0], &args[1]),
-        5 if args.len() == 2 => t_matmul_case::<T>(&args[0], &args[1]),
+        5 if args.len() == 2 => t_matmul_case::<T>(&args[0], &args[1], only),
         6 if args.len() == 1 => {
             let Some(d) = operand_dims(&args[0]) else { return bad_case() };
             with_d3!(d, t_neg_case::<T>(&args[0]))
         }
-        11 | 12 | 15 if args.len() == 2 => m_binary_case::<T>(op, &args[0], &args[1]),
+        11 | 12 | 15 if args.len() == 2 => m_binary_case::<T>(op, &args[0], &args[1], only),
+        17 if args.len() == 2 => m_eq_case::<T>(&args[0], &args[1], only),
         13 if args.len() == 3 => {
             let (Some(k), Some(s)) = (args[1].i64(), T::dec(&args[2])) else { return bad_case() };
             if !(0..=3).contains(&k) {
                 return bad_case();
             }
-            m_scalar_case::<T>(&args[0], k, &s)
+            m_scalar_case::<T>(&args[0], k, &s, only)
         }
-        16 if args.len() == 1 => m_neg_case::<T>(&args[0]),
+        16 if args.len() == 1 => m_neg_case::<T>(&args[0], only),
         _ => bad_case(),
     }
 }
@@ -307,6 +342,56 @@ macro_rules! forms16 {
     }};
 }
 
+/// Form `$f` (0..16) of the 16, in the order of `forms16!`.
+macro_rules! form16_at {
+    ($out:ident, $op:tt, $f:expr, $cx:expr, $vx:expr, $cy:expr, $vy:expr) => {
+        match $f {
+            0 => $out(guarded(|| $cx() $op $cy())),
+            1 => $out(guarded(|| $cx() $op &$cy())),
+            2 => $out(guarded(|| &$cx() $op $cy())),
+            3 => $out(guarded(|| &$cx() $op &$cy())),
+            4 => $out(guarded(|| $cx() $op $vy())),
+            5 => $out(guarded(|| $cx() $op &$vy())),
+            6 => $out(guarded(|| &$cx() $op $vy())),
+            7 => $out(guarded(|| &$cx() $op &$vy())),
+            8 => $out(guarded(|| $vx() $op $cy())),
+            9 => $out(guarded(|| $vx() $op &$cy())),
+            10 => $out(guarded(|| &$vx() $op $cy())),
+            11 => $out(guarded(|| &$vx() $op &$cy())),
+            12 => $out(guarded(|| $vx() $op $vy())),
+            13 => $out(guarded(|| $vx() $op &$vy())),
+            14 => $out(guarded(|| &$vx() $op $vy())),
+            15 => $out(guarded(|| &$vx() $op &$vy())),
+            _ => bad_case(),
+        }
+    };
+}
+/// All 16 forms (must agree) or only form `$only`.
+macro_rules! forms16_or_one {
+    ($only:expr, $code:expr, $out:ident, $op:tt, $cx:expr, $vx:expr, $cy:expr, $vy:expr) => {
+        match $only {
+            None => canon(forms16!($out, $op, $cx, $vx, $cy, $vy), $code),
+            Some(f) => form16_at!($out, $op, f, $cx, $vx, $cy, $vy),
+        }
+    };
+}
+/// Form `$f` (0..8) of the 8 scalar forms, in the order of `forms8!`.
+macro_rules! form8_at {
+    ($out:ident, $op:tt, $f:expr, $cx:expr, $vx:expr, $s:expr) => {
+        match $f {
+            0 => $out(guarded(|| $cx() $op $s.clone())),
+            1 => $out(guarded(|| $cx() $op &$s)),
+            2 => $out(guarded(|| &$cx() $op $s.clone())),
+            3 => $out(guarded(|| &$cx() $op &$s)),
+            4 => $out(guarded(|| $vx() $op $s.clone())),
+            5 => $out(guarded(|| $vx() $op &$s)),
+            6 => $out(guarded(|| &$vx() $op $s.clone())),
+            7 => $out(guarded(|| &$vx() $op &$s)),
+            _ => bad_case(),
+        }
+    };
+}
+
 /// The 8 forms of a container/view (owned, borrowed) op scalar (owned, borrowed).
 macro_rules! forms8 {
     ($out:ident, $op:tt, $cx:expr, $vx:expr, $s:expr) => {{
@@ -354,6 +439,7 @@ fn t_binary_forms<T, SX, SY, const D: usize>(
     vx: &dyn Fn() -> TensorView<T, SX, D>,
     cy: &dyn Fn() -> Tensor<T, D>,
     vy: &dyn Fn() -> TensorView<T, SY, D>,
+    only: Option<usize>,
 ) -> Sx
 where
     T: Numeric + Enc + PartialEq + 'static,
@@ -362,8 +448,8 @@ where
     SY: TensorRef<T, D>,
 {
     match op {
-        1 => canon(forms16!(out_tensor, +, cx, vx, cy, vy), 100),
-        2 => canon(forms16!(out_tensor, -, cx, vx, cy, vy), 200),
+        1 => forms16_or_one!(only, 100, out_tensor, +, cx, vx, cy, vy),
+        2 => forms16_or_one!(only, 200, out_tensor, -, cx, vx, cy, vy),
         7 => {
             let mut r = forms_into!(out_tensor, cx, vx, cy, vy, |a, b| a.elementwise(b, |p: T, q: T| p * q));
             r.extend(forms_into!(out_tensor, cx, vx, cy, vy, |a, b| a
@@ -382,7 +468,7 @@ where
     }
 }
 
-fn t_binary_case<T, const D: usize>(op: i64, x: &Sx, y: &Sx) -> Sx
+fn t_binary_case<T, const D: usize>(op: i64, x: &Sx, y: &Sx, only: Option<usize>) -> Sx
 where
     T: Numeric + Enc + PartialEq + 'static,
     for<'a> &'a T: NumericRef<T>,
@@ -400,6 +486,7 @@ where
             &|| TensorView::from(x.base()),
             &cy,
             &|| TensorView::from(y.base()),
+            only,
         ),
         (true, false) => t_binary_forms::<T, _, _, D>(
             op,
@@ -407,6 +494,7 @@ where
             &|| TensorView::from(x.base()),
             &cy,
             &|| TensorView::from(y.dyn_view().unwrap()),
+            only,
         ),
         (false, true) => t_binary_forms::<T, _, _, D>(
             op,
@@ -414,6 +502,7 @@ where
             &|| TensorView::from(x.dyn_view().unwrap()),
             &cy,
             &|| TensorView::from(y.base()),
+            only,
         ),
         (false, false) => t_binary_forms::<T, _, _, D>(
             op,
@@ -421,11 +510,12 @@ where
             &|| TensorView::from(x.dyn_view().unwrap()),
             &cy,
             &|| TensorView::from(y.dyn_view().unwrap()),
+            only,
         ),
     }
 }
 
-fn t_scalar_case<T, const D: usize>(x: &Sx, k: i64, s: &T) -> Sx
+fn t_scalar_case<T, const D: usize>(x: &Sx, k: i64, s: &T, only: Option<usize>) -> Sx
 where
     T: Numeric + Enc + PartialEq + 'static,
     for<'a> &'a T: NumericRef<T>,
@@ -434,6 +524,14 @@ where
     let Some(x) = TOp::<T, D>::decode(x) else { return bad_case() };
     let cx = || x.container.clone();
     let vx = || TensorView::from(x.dyn_view().unwrap());
+    if let Some(f) = only {
+        return match k {
+            0 => form8_at!(out_tensor, +, f, cx, vx, s),
+            1 => form8_at!(out_tensor, -, f, cx, vx, s),
+            2 => form8_at!(out_tensor, *, f, cx, vx, s),
+            _ => form8_at!(out_tensor, /, f, cx, vx, s),
+        };
+    }
     let mut r = match k {
         0 => forms8!(out_tensor, +, cx, vx, s),
         1 => forms8!(out_tensor, -, cx, vx, s),
@@ -489,6 +587,7 @@ fn t_matmul_forms<T, SX, SY>(
     vx: &dyn Fn() -> TensorView<T, SX, 2>,
     cy: &dyn Fn() -> Tensor<T, 2>,
     vy: &dyn Fn() -> TensorView<T, SY, 2>,
+    only: Option<usize>,
 ) -> Sx
 where
     T: Numeric + Enc + PartialEq + 'static,
@@ -496,10 +595,10 @@ where
     SX: TensorRef<T, 2>,
     SY: TensorRef<T, 2>,
 {
-    canon(forms16!(out_tensor, *, cx, vx, cy, vy), 800)
+    forms16_or_one!(only, 800, out_tensor, *, cx, vx, cy, vy)
 }
 
-fn t_matmul_case<T>(x: &Sx, y: &Sx) -> Sx
+fn t_matmul_case<T>(x: &Sx, y: &Sx, only: Option<usize>) -> Sx
 where
     T: Numeric + Enc + PartialEq + 'static,
     for<'a> &'a T: NumericRef<T>,
@@ -515,24 +614,28 @@ where
             &|| TensorView::from(x.base()),
             &cy,
             &|| TensorView::from(y.base()),
+            only,
         ),
         (true, false) => t_matmul_forms::<T, _, _>(
             &cx,
             &|| TensorView::from(x.base()),
             &cy,
             &|| TensorView::from(y.dyn_view().unwrap()),
+            only,
         ),
         (false, true) => t_matmul_forms::<T, _, _>(
             &cx,
             &|| TensorView::from(x.dyn_view().unwrap()),
             &cy,
             &|| TensorView::from(y.base()),
+            only,
         ),
         (false, false) => t_matmul_forms::<T, _, _>(
             &cx,
             &|| TensorView::from(x.dyn_view().unwrap()),
             &cy,
             &|| TensorView::from(y.dyn_view().unwrap()),
+            only,
         ),
     }
 }
@@ -647,6 +750,7 @@ fn m_binary_forms<T, SX, SY>(
     vx: &dyn Fn() -> MatrixView<T, SX>,
     cy: &dyn Fn() -> Matrix<T>,
     vy: &dyn Fn() -> MatrixView<T, SY>,
+    only: Option<usize>,
 ) -> Sx
 where
     T: Numeric + Enc + PartialEq + 'static,
@@ -655,14 +759,14 @@ where
     SY: MatrixRef<T> + easy_ml::matrices::views::NoInteriorMutability,
 {
     match op {
-        11 => canon(forms16!(out_matrix, +, cx, vx, cy, vy), 1100),
-        12 => canon(forms16!(out_matrix, -, cx, vx, cy, vy), 1200),
-        15 => canon(forms16!(out_matrix, *, cx, vx, cy, vy), 1500),
+        11 => forms16_or_one!(only, 1100, out_matrix, +, cx, vx, cy, vy),
+        12 => forms16_or_one!(only, 1200, out_matrix, -, cx, vx, cy, vy),
+        15 => forms16_or_one!(only, 1500, out_matrix, *, cx, vx, cy, vy),
         _ => bad_case(),
     }
 }
 
-fn m_binary_case<T>(op: i64, x: &Sx, y: &Sx) -> Sx
+fn m_binary_case<T>(op: i64, x: &Sx, y: &Sx, only: Option<usize>) -> Sx
 where
     T: Numeric + Enc + PartialEq + 'static,
     for<'a> &'a T: NumericRef<T>,
@@ -679,6 +783,7 @@ where
             &|| MatrixView::from(x.base()),
             &cy,
             &|| MatrixView::from(y.base()),
+            only,
         ),
         (true, false) => m_binary_forms::<T, _, _>(
             op,
@@ -686,6 +791,7 @@ where
             &|| MatrixView::from(x.base()),
             &cy,
             &|| MatrixView::from(y.dyn_view().unwrap()),
+            only,
         ),
         (false, true) => m_binary_forms::<T, _, _>(
             op,
@@ -693,6 +799,7 @@ where
             &|| MatrixView::from(x.dyn_view().unwrap()),
             &cy,
             &|| MatrixView::from(y.base()),
+            only,
         ),
         (false, false) => m_binary_forms::<T, _, _>(
             op,
@@ -700,8 +807,12 @@ where
             &|| MatrixView::from(x.dyn_view().unwrap()),
             &cy,
             &|| MatrixView::from(y.dyn_view().unwrap()),
+            only,
         ),
     };
+    if only.is_some() {
+        return result;
+    }
     // ---- the tensor API on the same data must compute the same flat data
     // (a) plain tensors holding the same elements
     let (ya, yb) = if op == 15 { (2, 3) } else { (0, 1) };
@@ -743,7 +854,7 @@ where
     result
 }
 
-fn m_scalar_case<T>(x: &Sx, k: i64, s: &T) -> Sx
+fn m_scalar_case<T>(x: &Sx, k: i64, s: &T, only: Option<usize>) -> Sx
 where
     T: Numeric + Enc + PartialEq + 'static,
     for<'a> &'a T: NumericRef<T>,
@@ -752,6 +863,14 @@ where
     let Some(x) = MOp::<T>::decode(x) else { return bad_case() };
     let cx = || x.container.clone();
     let vx = || MatrixView::from(x.dyn_view().unwrap());
+    if let Some(f) = only {
+        return match k {
+            0 => form8_at!(out_matrix, +, f, cx, vx, s),
+            1 => form8_at!(out_matrix, -, f, cx, vx, s),
+            2 => form8_at!(out_matrix, *, f, cx, vx, s),
+            _ => form8_at!(out_matrix, /, f, cx, vx, s),
+        };
+    }
     let r = match k {
         0 => forms8!(out_matrix, +, cx, vx, s),
         1 => forms8!(out_matrix, -, cx, vx, s),
@@ -772,7 +891,7 @@ where
     result
 }
 
-fn m_neg_case<T>(x: &Sx) -> Sx
+fn m_neg_case<T>(x: &Sx, only: Option<usize>) -> Sx
 where
     T: Numeric + Enc + PartialEq + 'static,
     for<'a> &'a T: NumericRef<T>,
@@ -780,6 +899,14 @@ where
     let Some(x) = MOp::<T>::decode(x) else { return bad_case() };
     let cx = || x.container.clone();
     let vx = || MatrixView::from(x.dyn_view().unwrap());
+    if let Some(f) = only {
+        return match f {
+            0 => out_matrix(guarded(|| -cx())),
+            1 => out_matrix(guarded(|| -&cx())),
+            2 => out_matrix(guarded(|| -vx())),
+            _ => out_matrix(guarded(|| -&vx())),
+        };
+    }
     let r = vec![
         out_matrix(guarded(|| -cx())),
         out_matrix(guarded(|| -&cx())),
@@ -792,6 +919,56 @@ where
         return inconsistent(720);
     }
     result
+}
+
+/// (3 17 ty MX MY): the four PartialEq impls on matrices / matrix views (`==` and `!=`), the tensor
+/// API on the same data; with `only = Some(form)` just that impl.
+fn m_eq_case<T>(x: &Sx, y: &Sx, only: Option<usize>) -> Sx
+where
+    T: Numeric + Enc + PartialEq + 'static,
+    for<'a> &'a T: NumericRef<T>,
+{
+    let (Some(x), Some(y)) = (MOp::<T>::decode(x), MOp::<T>::decode(y)) else {
+        return bad_case();
+    };
+    let out = |r: Option<bool>| match r {
+        Some(b) => ok(boolean(b)),
+        None => panicked(),
+    };
+    let vx = || MatrixView::from(x.dyn_view().unwrap());
+    let vy = || MatrixView::from(y.dyn_view().unwrap());
+    let form = |f: usize| match f {
+        0 => out(guarded(|| x.container == y.container)),
+        1 => out(guarded(|| x.container == vy())),
+        2 => out(guarded(|| vx() == y.container)),
+        _ => out(guarded(|| vx() == vy())),
+    };
+    if let Some(f) = only {
+        return form(f);
+    }
+    let mut r: Vec<Sx> = (0..4).map(form).collect();
+    // `!=` is the negation
+    r.push(out(guarded(|| !(x.container != y.container))));
+    r.push(out(guarded(|| !(x.container != vy()))));
+    r.push(out(guarded(|| !(vx() != y.container))));
+    r.push(out(guarded(|| !(vx() != vy()))));
+    // views directly over the containers (row major on both sides), mixed with the adaptor chains
+    r.push(out(guarded(|| MatrixView::from(&x.container) == MatrixView::from(&y.container))));
+    r.push(out(guarded(|| MatrixView::from(&x.container) == vy())));
+    r.push(out(guarded(|| vx() == MatrixView::from(&y.container))));
+    // the tensor API on the same data
+    let (tx, ty) = (x.as_tensor(0, 1), y.as_tensor(0, 1));
+    r.push(out(guarded(|| tx == ty)));
+    let tvx = || {
+        TensorView::from(TensorRefMatrix::with_names(x.dyn_view().unwrap(), [dim(0), dim(1)]).unwrap())
+    };
+    let tvy = || {
+        TensorView::from(TensorRefMatrix::with_names(y.dyn_view().unwrap(), [dim(0), dim(1)]).unwrap())
+    };
+    r.push(out(guarded(|| tvx() == tvy())));
+    r.push(out(guarded(|| tvx() == ty)));
+    r.push(out(guarded(|| tx == tvy())));
+    canon(r, 1700)
 }
 
 // ================================================================== f64 oracle
